@@ -9,6 +9,9 @@ Inductive role := RNew | RAcq | RWait | RDone | RUnl | RRel.
 
 Section Inv.
 Variable sf : key -> sid.
+(* what is known about the key list of every Lock: True, or strictly sorted when the caller passes distinct keys *)
+Variable KP : list key -> Prop.
+Hypothesis KP_nil : KP [].
 Notation holderK := (holderK sf).
 Notation maxK := (maxK sf).
 Notation qwf := (qwf).
@@ -18,7 +21,8 @@ Definition pending (L : latches) (wl : list lid) (k : key) : Prop :=
 
 Record inv (L : latches) (rl : lid -> role) (wl ch : list lid) (rel : option lid) (st : list lid) : Prop := mkInv {
   i_q : qwf L;
-  i_sorted : forall i, StronglySorted N.lt (lkeys (locks L i));
+  i_sorted : forall i, KP (lkeys (locks L i));
+  i_hnd : forall i, NoDup (held (locks L i));
   i_acq : forall i, lacq (locks L i) <= length (lkeys (locks L i));
   i_hold : forall i k, In k (held (locks L i)) <-> holderK L k = Some i;
   i_role : forall i, match rl i with
@@ -55,6 +59,7 @@ Lemma inv_init : inv init_lat (fun _ => RNew) [] [] None [].
 Proof.
   constructor.
   - intros s. simpl. constructor.
+  - intros i. simpl. exact KP_nil.
   - intros i. simpl. constructor.
   - intros i. simpl. auto.
   - intros i k. unfold held; simpl. split; [tauto|]. unfold holderK, ProofsOps.holderK, nodeK; simpl. discriminate.
@@ -145,7 +150,7 @@ Qed.
 
 (* ---------- LStart ---------- *)
 Lemma inv_start L rl wl ch rel st i ks t rl' :
-  inv L rl wl ch rel st -> rl i = RNew -> NoDup ks ->
+  inv L rl wl ch rel st -> rl i = RNew -> KP (sort_keys ks) ->
   (forall x, rl' x = if Nat.eqb x i then (if complete (gen_lock ks t) then RDone else RAcq) else rl x) ->
   inv (set_lock L i (gen_lock ks t)) rl' wl ch rel (i :: st).
 Proof.
@@ -161,7 +166,8 @@ Proof.
   { intros k (j & A & B & C). exists j. rewrite LK. destruct (Nat.eqb_spec j i); [subst; contradiction | auto]. }
   constructor.
   - exact i_q0.
-  - intros x. rewrite LK. destruct (Nat.eqb_spec x i); auto. simpl. apply sort_keys_sorted; auto.
+  - intros x. rewrite LK. destruct (Nat.eqb_spec x i); auto.
+  - intros x. rewrite LK. destruct (Nat.eqb_spec x i); auto. unfold held; simpl. constructor.
   - intros x. rewrite LK. destruct (Nat.eqb_spec x i); auto. simpl. lia.
   - intros x k. rewrite LK. change (holderK (set_lock L i (gen_lock ks t)) k) with (holderK L k).
     destruct (Nat.eqb_spec x i); auto. subst x. unfold held; simpl. rewrite <- i_hold0, H0. tauto.
@@ -216,6 +222,7 @@ Proof.
   constructor.
   - exact i_q0.
   - intros x. rewrite E1. auto.
+  - intros x. rewrite E5. auto.
   - intros x. rewrite E1, E2. auto.
   - intros x k. rewrite E5. apply i_hold0.
   - intros x. rewrite R', E1, E2, E3, E6. specialize (i_role0 x). destruct (Nat.eqb_spec x i).
@@ -246,6 +253,45 @@ Proof.
   - intros x k. rewrite E3, E5, E4. apply i_acqok0.
 Qed.
 
+(* ---------- SetCommitTS alone (UnLock after Close sends nothing) ---------- *)
+Lemma inv_commit L rl wl ch rel st i c :
+  inv L rl wl ch rel st -> inv (set_lock L i (set_commit (locks L i) c)) rl wl ch rel st.
+Proof.
+  intros [].
+  set (L' := set_lock L i (set_commit (locks L i) c)).
+  assert (LK : forall x, locks L' x = if Nat.eqb x i then set_commit (locks L i) c else locks L x) by reflexivity.
+  assert (E1 : forall x, lkeys (locks L' x) = lkeys (locks L x)) by (intros x; rewrite LK; destruct (Nat.eqb_spec x i); subst; auto).
+  assert (E2 : forall x, lacq (locks L' x) = lacq (locks L x)) by (intros x; rewrite LK; destruct (Nat.eqb_spec x i); subst; auto).
+  assert (E3 : forall x, lstale (locks L' x) = lstale (locks L x)) by (intros x; rewrite LK; destruct (Nat.eqb_spec x i); subst; auto).
+  assert (E4 : forall x, lstart (locks L' x) = lstart (locks L x)) by (intros x; rewrite LK; destruct (Nat.eqb_spec x i); subst; auto).
+  assert (E5 : forall x, held (locks L' x) = held (locks L x)) by (intros x; unfold held; rewrite E1, E2; auto).
+  assert (E6 : forall x, key_at (locks L' x) = key_at (locks L x)) by (intros x; unfold key_at; rewrite E1, E2; auto).
+  assert (P : forall k, pending L wl k -> pending L' wl k).
+  { intros k (j & A & B & C). exists j. rewrite E3, E6. auto. }
+  constructor.
+  - exact i_q0.
+  - intros x. rewrite E1. auto.
+  - intros x. rewrite E5. auto.
+  - intros x. rewrite E1, E2. auto.
+  - intros x k. rewrite E5. apply i_hold0.
+  - intros x. rewrite E1, E2, E3, E6. apply i_role0.
+  - intros s x X. destruct (i_wait0 s x X) as (A & B & C & k & D & E & F).
+    rewrite E3, E6. repeat split; auto. exists k. repeat split; auto. destruct F; auto.
+  - exact i_wnd0.
+  - exact i_wl_nd0.
+  - intros j X. destruct (i_wl0 j X) as (A & B). rewrite E3, E6, E4. split; auto.
+    intros S. destruct (B S) as (k & C & D & E). exists k. repeat split; auto. intros i0 RE. rewrite E5. auto.
+  - intros i0 RE. rewrite E2. auto.
+  - exact i_chan_nd0.
+  - exact i_chan0.
+  - exact i_started0.
+  - exact i_maxsrc0.
+  - exact i_relpc0.
+  - intros x. rewrite E3, E1, E4. apply i_stale0.
+  - exact i_live0.
+  - intros x k. rewrite E3, E5, E4. apply i_acqok0.
+Qed.
+
 (* ---------- LPop ---------- *)
 Lemma inv_pop_rel L rl ch st i :
   inv L rl [] (i :: ch) None st -> 0 < lacq (locks L i) -> inv L rl [] ch (Some i) st.
@@ -255,6 +301,7 @@ Proof.
   constructor.
   - exact i_q0.
   - exact i_sorted0.
+  - exact i_hnd0.
   - exact i_acq0.
   - exact i_hold0.
   - intros x. specialize (i_role0 x). destruct (rl x); auto.
@@ -284,6 +331,7 @@ Proof.
   constructor.
   - exact i_q0.
   - exact i_sorted0.
+  - exact i_hnd0.
   - exact i_acq0.
   - exact i_hold0.
   - intros x. rewrite R'. specialize (i_role0 x). destruct (Nat.eqb_spec x i); [subst; auto|].
@@ -318,6 +366,7 @@ Proof.
   constructor.
   - exact i_q0.
   - exact i_sorted0.
+  - exact i_hnd0.
   - exact i_acq0.
   - exact i_hold0.
   - intros x. rewrite R'. specialize (i_role0 x). destruct (Nat.eqb_spec x j); [subst; auto|].
